@@ -302,6 +302,19 @@ const FIXED: &[(&str, &[&str], &str, bool, usize)] = &[
     ("(add (add (var $1) (var $2)) (add (var $3) (var $4)))", &["comm-add", "assoc-add"], "eqsat", true, 7),
 ];
 
+/// fixed runs whose rules are written AFTER the start term is inserted, their explicit slots named like internal slots of
+/// the e-graph (late_rule_slots with the given seed): (start term, rules, ExtractionSubst, iterations, seed)
+const FIXED_LATE: &[(&str, &[&str], bool, usize, u64)] = &[
+    ("(mul (var $1) (sum $2 (var $2)))", &["pull-in"], false, 1, 1),
+    ("(mul (var $1) (sum $2 (var $2)))", &["pull-in"], true, 1, 2),
+    ("(mul (var $1) (sum $2 (var $2)))", &["pull-in"], false, 1, 3),
+    ("(mul (var $1) (sum $2 (var $2)))", &["pull-in"], false, 1, 4),
+    ("(add (var $1) (let $2 (var $2) (var $3)))", &["let-in", "let-var"], false, 1, 1),
+    ("(add (var $1) (let $2 (var $2) (var $3)))", &["let-in", "let-var"], true, 1, 2),
+    ("(add (var $1) (let $2 (var $2) (var $3)))", &["let-in", "let-var"], false, 1, 3),
+    ("(mul (add (var $1) (var $2)) (sum $3 (mul (var $3) (var $1))))", &["pull-in", "comm-mul"], false, 1, 5),
+];
+
 /// Staged rule sets on leaves with 4-6 slots (language T): every call of apply_rewrites adds symmetries
 /// only - no e-node, no class, no slot changes - so its return value rests on the symmetry part of the
 /// progress measure alone, also for groups whose stabiliser chain is three or more levels deep.
@@ -407,8 +420,22 @@ fn main() {
         let hook_sleep = std::time::Duration::from_millis(if time_mode == "far" { 0 } else { 3 });
         // rules written AFTER the e-graph was filled, their explicit slots named like slots the
         // classes already use internally
-        let late_rules = rng.gen_bool(0.35);
-        let late_seed: u64 = rng.gen();
+        let mut late_rules = rng.gen_bool(0.35);
+        let mut late_seed: u64 = rng.gen();
+        if run >= FIXED.len() {
+            if let Some((st, rs, ext, il, sd)) = FIXED_LATE.get(run - FIXED.len()) {
+                start_txt = st.to_string();
+                rules = rs.iter().map(|n| rf.rules.iter().find(|r| r.name == *n).unwrap().clone()).collect();
+                kind = "manual";
+                iter_limit = *il;
+                node_limit = 100;
+                hook_fail_at = None;
+                extraction_subst = *ext;
+                late_rules = true;
+                late_seed = *sd;
+            }
+        }
+        let rule_names: Vec<String> = rules.iter().map(|r| r.name.clone()).collect();
         // boundary node limits (Runner): a dry run of the same configuration without a node limit gives the node count at
         // the start of every iteration; the limit is then put exactly on one of them, or one off - the places where
         // `>` / `>=` / `<` in the limit checks make a difference
